@@ -482,7 +482,9 @@ def rule_difference_typestate(prog, C):
                         diffs = [ev for ev in m.diffs if ev["args"] and ev["args"][0] == reg]
                         trimmed = T("sub", reg, T("attr", tm.param("cube"), "marginless"))
                         # first event whose operands mention the trimmed region
-                        uses = [ev for ev in I.events if any(tm.contains(v, lambda x: x == trimmed) for v in _terms(ev))]
+                        # (a call's RESULT is not a use of its value; an inlined helper that differences and then trims
+                        # produces the trimmed region as its result before - in event order - its own body runs)
+                        uses = [ev for ev in I.events if any(tm.contains(v, lambda x: x == trimmed) for v in _terms(ev, skip=("result",)))]
                         used_in_result = any(tm.contains(r, lambda x: x == reg) for r in m.returns)
                         cons = "%s region %d, weights %s, %s, return_missing_as %s" % (name, p, w, "ignore" if ign else "propagate", rma)
                         n += 1
@@ -499,8 +501,10 @@ def rule_difference_typestate(prog, C):
     return n
 
 
-def _terms(ev):
-    for v in ev.d.values():
+def _terms(ev, skip=()):
+    for k, v in ev.d.items():
+        if k in skip:
+            continue
         if isinstance(v, T):
             yield v
         elif isinstance(v, tuple):
